@@ -1,3 +1,4 @@
+import re
 """MIR model over the mirfacts JSON: bodies, places, operands, pretty printer, CFG analyses."""
 from collections import defaultdict
 
@@ -569,14 +570,21 @@ class Program:
                 continue
             if "Public" in b.j.get("vis", ""):
                 continue
+            new_trait_impl = False
             if b.j.get("impl_trait"):
-                continue
+                # impls of a trait the baseline tree does not have (a private trait introduced to share code between
+                # two types) are helpers like any other; impls of known traits are API
+                tr = re.sub(r"<.*$", "", b.j.get("impl_trait") or "")
+                if tr.startswith(("std::", "core::", "alloc::")):
+                    continue
+                # (a new method of a local trait - known or new - is not in the baseline vocabulary: a helper)
+                new_trait_impl = True      # called through the trait: no statically resolved call site
             cs = sites.get(name, [])
             if name in cs:
                 continue          # recursive
             if len(cs) == 1:
                 out[name] = cs[0]
-            elif len(cs) > 1:
+            elif len(cs) > 1 or new_trait_impl:
                 out[name] = None   # several callers: inlined at each call site by the path reader, no single home
         self._auto_inline = out
         return out
